@@ -116,7 +116,8 @@ def replay(log, method):
         maybe_raise("loop")
         return np.array([y[1], -y[0]])
 
-    sys_ = de.OdeSystem(rhs, y0=np.array([1.0, 0.0]), dense_output=True, t=(init["t0"] * S, init["tf"] * S), dt=init["dt0"] * S)
+    dense = bool(init.get("dense", True))
+    sys_ = de.OdeSystem(rhs, y0=np.array([1.0, 0.0]), dense_output=dense, t=(init["t0"] * S, init["tf"] * S), dt=init["dt0"] * S)
     holder["sys"] = sys_
     if method == "scripted":
         import warnings
@@ -242,7 +243,8 @@ def replay(log, method):
                 mism.append({"call": ncall, "what": "Events", "model": [(m["t"] * S, m["ev"]) for m in p["events"]], "code": evc})
             sol = sys_.sol
             ends = [float(x) for x in (sol.t_eval or [])] if sol is not None else []
-            if len(ends) != len(p["sol"]) or not all(tol(a, m["b"] * S) for a, m in zip(ends, p["sol"])):
+            # without dense output the pieces exist only while events are examined (sol is None for the user)
+            if dense and (len(ends) != len(p["sol"]) or not all(tol(a, m["b"] * S) for a, m in zip(ends, p["sol"]))):
                 mism.append({"call": ncall, "what": "Pieces", "model": [m["b"] * S for m in p["sol"]], "code": ends})
             d = float(sys_.dt)
             if not (abs(abs(d) - abs(p["dt"]) * S) <= 1e-9 and (d > 0) == (p["dt"] > 0)) and not approx:
